@@ -654,6 +654,9 @@ func embedsInOrder(forkBody *ast.BlockStmt, refStmts []ast.Stmt) (bool, string) 
 	var fl0, fl []ast.Stmt
 	flattenStmts(forkBody.List, &fl0)
 	for _, st := range fl0 {
+		if a, b := unchain(st); a != nil {
+			fl = append(fl, a, b) // the two statements a big.Int method chain abbreviates
+		}
 		fl = append(fl, st)
 		if lt := lookThrough(st); lt != nil {
 			fl = append(fl, lt) // the same assignment with a one-expression helper looked through
